@@ -62,6 +62,8 @@ type built struct {
 	bin       string
 	unshimmed []string
 	buildS    float64
+	// files of the scratch copy of notation-core-go whose imports were re-pointed (0 = the dependency runs on the real os)
+	depShimmed int
 }
 
 func (b *built) cleanup() {
@@ -109,6 +111,26 @@ func build() (*built, error) {
 	extra, _ := os.ReadFile(filepath.Join(harnessDir, "go.sum.extra"))
 	if err := os.WriteFile(filepath.Join(scratch, "go.sum"), append(sum, extra...), 0644); err != nil {
 		return b, err
+	}
+	// the one dependency through which the repository reads files (certificate and key files are read by
+	// notation-core-go/x509): a scratch copy with the same import re-pointing, so that read errors inside
+	// those files can be injected too. If the module cannot be located the build goes on without it.
+	const coreMod = "github.com/notaryproject/notation-core-go"
+	lc := exec.Command(gobin, "list", "-m", "-modfile="+modfile, "-f", "{{.Dir}}", coreMod)
+	lc.Dir = harnessDir
+	lc.Env = goEnv()
+	if out, err := lc.Output(); err == nil && strings.TrimSpace(string(out)) != "" {
+		src := strings.TrimSpace(string(out))
+		dst := filepath.Join(scratch, "deps", "notation-core-go")
+		if err := copyTree(src, dst); err == nil {
+			if nd, _, err := rewriteImports(dst); err == nil && nd > 0 {
+				mod += "\nreplace " + coreMod + " => " + dst + "\n"
+				if err := os.WriteFile(modfile, []byte(mod), 0644); err != nil {
+					return b, err
+				}
+				b.depShimmed = nd
+			}
+		}
 	}
 	b.bin = filepath.Join(scratch, "sim.test")
 	cmd := exec.Command(gobin, "test", "-c", "-trimpath", "-modfile="+modfile, "-o", b.bin, ".")
@@ -451,6 +473,7 @@ func runCheck(id, tier string) int {
 		"known_findings_seen": knownSeen,
 		"extra":               extra,
 		"unshimmed_api_present": b.unshimmed,
+		"dependency_files_repointed_notation_core_go": b.depShimmed,
 		"workers":             workers,
 		"build_s":             b.buildS,
 		"exhaustive":          false,
